@@ -280,6 +280,9 @@ func (s *Sim) step(a Action) {
 		dg := &Dgram{Act: idx, B: b, Src: src, SMF: -1}
 		s.dgs[idx] = dg
 		s.deliver(dg)
+		if s.oracleOn("C07") {
+			s.heartbeatProbe()
+		}
 	case "adv":
 		s.mstep("adv", nil, func() {
 			if a.Ms > 3000 {
